@@ -86,6 +86,9 @@ func body(t TaskSpec) string {
 		if t.Fail == "append1" && i == 1 {
 			s += " --fail=append"
 		}
+		if t.Fail == "stop1" && i == 1 {
+			s += " --stop=1" // the command stops its scope gracefully (no error) and keeps running
+		}
 		return s
 	}
 	l = append(l, c(1))
@@ -240,7 +243,9 @@ func judge(sp Spec, o *obs) func(x *explore.Exec) *explore.Verdict {
 			return v("refused-task-ran", "a refused submission never runs", "the refused task executed a command")
 		}
 		// which tasks fail by themselves, and which must be skipped
-		selfFails := func(t TaskSpec) bool { return t.Fail != "" || strings.HasPrefix(t.Sandbox, "retfail:") }
+		selfFails := func(t TaskSpec) bool {
+			return (t.Fail != "" && t.Fail != "stop1") || strings.HasPrefix(t.Sandbox, "retfail:")
+		}
 		var mustSkip func(name string, seen map[string]bool) bool
 		failed := func(name string, seen map[string]bool) bool {
 			t := byName[name]
@@ -321,8 +326,9 @@ func judge(sp Spec, o *obs) func(x *explore.Exec) *explore.Verdict {
 				allowed["begin:c1 end:c1"] = true
 			case "return2":
 				allowed[full] = true
-			case "append1":
-				// the command reported the error itself and returned nil: the loop may still pick the next line
+			case "append1", "stop1":
+				// the command reported the error itself (or stopped the scope) and returned nil: the loop may
+				// still pick the next line
 				allowed["begin:c1 end:c1"] = true
 				allowed[full] = true
 			}
@@ -481,6 +487,13 @@ func programs(thorough bool) []Spec {
 		sb.Separated = true
 		ps = append(ps, Spec{Tasks: []TaskSpec{sa, t("b")}, Bound: b}, Spec{Tasks: []TaskSpec{sa, sb}, Bound: b + 1}, Spec{Tasks: []TaskSpec{t("c"), sa}, Bound: b})
 	}
+	// a prerequisite whose scope is stopped gracefully (no error) while its command is still running: the
+	// dependent - in a scope with a context of its own - still waits for the END of the task
+	st := fail(t("a"), "stop1")
+	st.Separated, st.Yield = true, 1
+	sdep := t("b", "a")
+	sdep.Separated = true
+	ps = append(ps, Spec{Tasks: []TaskSpec{st, sdep}, Bound: b + 1})
 	// tasks in a sandbox that reports success / failure only through its return value
 	rf, rk := t("a"), t("a")
 	rf.Sandbox, rk.Sandbox = "retfail:a.sb", "retok:a.sb"
@@ -516,6 +529,13 @@ func LockWaitPrograms(thorough bool) []Spec {
 	ps = append(ps, Spec{Tasks: []TaskSpec{h, wt}, Bound: b})
 	wt.WLock, wt.RLock = "", "res"
 	ps = append(ps, Spec{Tasks: []TaskSpec{h, wt}, Bound: 0})
+	// two tasks naming one resource for writing, run by a sandbox whose Run returns while its work is
+	// still registered on the task scope: the locks are held until the task has finished, not until Run
+	// has returned
+	a1, a2 := t("a"), t("b")
+	a1.WLock, a2.WLock = "res", "res"
+	a1.Sandbox, a2.Sandbox = "async:a.sb:res", "async:b.sb:res"
+	ps = append(ps, Spec{Tasks: []TaskSpec{a1, a2}, Bound: b + 1})
 	return ps
 }
 
